@@ -4,5 +4,9 @@ INVARIANT SharpInside
 INVARIANT EdgesTwoCells
 INVARIANT FarOutRejected
 INVARIANT Cells_Tile
+INVARIANT T2tSatisfiable
+INVARIANT T2tSharpInside
+INVARIANT T2tOuterEdges
+INVARIANT TimeValInverts
 CONSTRAINT EmitConstraint
 CHECK_DEADLOCK FALSE
